@@ -122,11 +122,17 @@ def h_vectors(ctx):
     bin_type = ctx.choose("bin", BIN_TYPES, free=True)
     ctx.note("obs", obs)
     ctx.note("fcst", fcst)
-    events = [(T1, T2)] if "within" in bin_type else [(T1, None), (T2, None)]
+    # (T1, T1): a repeated threshold - the closed interval [t, t] is the event "exactly t", the others are empty
+    events = [(T1, T2), (T1, T1)] if "within" in bin_type else [(T1, None), (T2, None)]
     m0 = get_metric("ets")
     sig = []
     for (t, u) in events:
-        iv = interval_for(bin_type, t, u)
+        import verif.util
+        kindi, ivs, sitei, _ = H.quiet_call(verif.util.get_intervals, bin_type, np.array([t] if u is None else [t, u]))
+        if kindi != "ok" or len(ivs) != 1:
+            ctx.fail("intervals:%s:%s" % (bin_type, "repeated-threshold" if t == u else "count"), t=t, u=u, problem=str(sitei or kindi), intervals=(len(ivs) if kindi == "ok" else None))
+            continue
+        iv = ivs[0]
         exp = counts(obs, fcst, bin_type, t, u)
         nvalid = sum(1 for o, f in zip(obs, fcst) if not (math.isnan(o) or math.isnan(f)))
         O, F = np.array(obs, dtype=float), np.array(fcst, dtype=float)
